@@ -6,7 +6,7 @@ PROPS["C18"] = dict(
              require=["op.pull", "op.remove", "op.query", "op.multi", "op.connect", "op.len", "auth.nil",
                       "auth.sa.empty", "auth.sa.url", "auth.sa.bare", "auth.sa.bad",
                       "auth.form.userpass", "auth.form.token", "auth.form.base64",
-                      "pull.invalid-ref", "pull.backend-fails", "query.docker-alias", "case.starts-unconnected"]),
+                      "pull.invalid-ref", "pull.backend-fails", "query.docker-alias", "query.host-variant", "query.host-exact", "case.starts-unconnected"]),
         dict(cmd="credsfetch", mod="root", model="Model.Headers", quick=240, thorough=12000, shard=60, race=1500,
              # only keys that depend on the generated inputs, not on what the implementation does with them
              require=["mirror.table.nil", "mirror.table.empty", "mirror.table.one", "mirror.table.multi", "mirror.value.s", "mirror.value.l",
@@ -16,8 +16,10 @@ PROPS["C18"] = dict(
     ],
     rule="creds: random histories (3..24 ops) of CRI connect / PullImage (image strings incl. docker.io short forms, digests, unparsable; "
          "auth = user+password | identity token | base64 auth (valid, NUL-padded, no colon, invalid) | several | none; server address empty | URL | "
-         "scheme-less | unparsable; failing backend) / RemoveImage / other calls / credential queries over 9 hosts x 9 references / "
-         "multiCredsFuncs with scripted neighbours; non-trivial = at least one query offered a credential and one refused. "
+         "scheme-less | unparsable, rendered around host:port spellings (with/without port, default ports explicit, other ports, upper case, trailing dot, IPv4/IPv6 literals "
+         "with/without brackets) with userinfo / path / query / fragment / upper-case scheme / '//' prefix; failing backend) / RemoveImage / other calls / credential queries over 9 hosts x 9 references / "
+         "multiCredsFuncs with scripted neighbours, query hosts often differing from the pull's address host only in port / case / dot / brackets; plus a deterministic "
+         "sweep (13 host spellings x 10 address decorations x all host variants, every scheme-less and unparsable form); non-trivial = at least one query offered a credential and one refused. "
          "credsfetch: 0..3 mirrors with header tables (nil / empty / 1-3 keys, string or list values, wrong-typed values) (+ invalid hosts), the image pulled through the real CRI "
          "keychain (user+password | user only | identity token | bad | none; server address none / a mirror / origin / CDN / unparsable) feeding the real docker authorizers, "
          "scripted answers for resolution and size probe incl. 401 Basic/Bearer challenges and token-server answers (200, bad JSON, 400/401/403/404/405, error), then up to 5 "
@@ -30,7 +32,8 @@ PROPS["C18"] = dict(
         "all keychain methods are atomic under configMu (a schedule is an op list); the connection goroutine of NewCRIKeychain is the Connect op",
         "reference normalisation (distribution/reference.ParseDockerRef + containerd reference.Parse/Spec.String) is a contract: the model identifies a "
         "reference with the index of its normalised form; the harness table fixes the expected index by hand and the run checks it",
-        "net/url.Parse(...).Host and encoding/base64 are contracts: the model takes the server address / auth field in the structured form they are rendered from",
+        "net/url.Parse(text).Host is modelled in Gallina (Model/Creds.v parse_url_host, printable ASCII without escapes in the authority) and compared through every query; "
+        "encoding/base64 is a contract: the model takes the auth field in the structured form it is rendered from",
         "containerd's docker.Authorizer is third-party code modelled by contract in Model/Headers.v (per-host handlers, Basic/Bearer, token fetch POST then GET "
         "fallback, token and error caching); the correspondence run drives the real one; a token fetch is atomic w.r.t. other fetcher threads; token expiry is not exercised",
         "the keychain state is constant during the life of one fetcher (the authorizer keeps the credential it obtained when the handler was created)",
